@@ -48,7 +48,7 @@ func (s *chainScn) witness() map[string]any {
 	for i, b := range s.Blocks {
 		var puts, dels []string
 		for _, p := range b.Puts {
-			puts = append(puts, hx(p[0])+"="+hx(p[1]))
+			puts = append(puts, hx(p[0])+"="+hv(p[1]))
 		}
 		for _, d := range b.Dels {
 			dels = append(dels, hx(d))
@@ -70,7 +70,11 @@ func (s *chainScn) witness() map[string]any {
 }
 
 // derive generates the changes of a child block: keys added AND removed under the probed prefixes.
-func derive(r *vcommon.Rand, parent *vcommon.OrdMap, prefixes [][]byte, al []byte) (blockSpec, *vcommon.OrdMap) {
+//
+// tog are the keys whose value alternates between non-empty and EMPTY from block to block (non-empty -> empty ->
+// non-empty along a chain): in 3/4 of the child blocks each of them is put with the opposite kind of value
+// (re-created when an ancestor deleted it).
+func derive(r *vcommon.Rand, parent *vcommon.OrdMap, prefixes [][]byte, al []byte, tog [][]byte) (blockSpec, *vcommon.OrdMap) {
 	var b blockSpec
 	m := parent.Clone()
 	for i, n := 0, r.Range(1, 3); i < n; i++ {
@@ -79,8 +83,19 @@ func derive(r *vcommon.Rand, parent *vcommon.OrdMap, prefixes [][]byte, al []byt
 			p = []byte{vcommon.Pick(r, al)}
 		}
 		k := append(append([]byte{}, p...), genKey(r, al, 3)...)
-		v := genVal(r)
+		v := genValE(r, 1, 5)
 		b.Puts = append(b.Puts, [2][]byte{k, v})
+		m.Put(k, v)
+	}
+	for _, k := range tog {
+		if !r.Chance(3, 4) {
+			continue
+		}
+		v := genVal(r)
+		if old, ok := m.Get(k); ok && len(old) > 0 {
+			v = genValE(r, 1, 1)
+		}
+		b.Puts = append(b.Puts, [2][]byte{append([]byte{}, k...), v})
 		m.Put(k, v)
 	}
 	for i, n := 0, r.Range(1, 2); i < n; i++ {
@@ -97,7 +112,7 @@ func derive(r *vcommon.Rand, parent *vcommon.OrdMap, prefixes [][]byte, al []byt
 	}
 	if m.Len() > 0 && r.Chance(1, 3) { // overwrite a value: "values current"
 		k := append([]byte{}, vcommon.Pick(r, m.Keys())...)
-		v := genVal(r)
+		v := genValE(r, 1, 5)
 		b.Puts = append(b.Puts, [2][]byte{k, v})
 		m.Put(k, v)
 	}
@@ -131,7 +146,27 @@ func genChain(r *vcommon.Rand) *chainScn {
 			p = []byte{vcommon.Pick(r, al)}
 		}
 		k := append(append([]byte{}, p...), genKey(r, al, 3)...)
+		v := genValE(r, 1, 5)
+		b0.Puts = append(b0.Puts, [2][]byte{k, v})
+		m0.Put(k, v)
+	}
+	// the alternating keys: one on a BRANCH node (P itself or P+x, with a longer key below it) and, half of the time,
+	// a leaf under Q; they start non-empty or empty
+	var tog [][]byte
+	t1 := append([]byte{}, P...)
+	if r.Chance(2, 3) {
+		t1 = append(t1, vcommon.Pick(r, al))
+	}
+	below := append(append([]byte{}, t1...), vcommon.Pick(r, al))
+	tog = append(tog, t1)
+	if r.Bool() {
+		tog = append(tog, append(append([]byte{}, Q...), 0x77, vcommon.Pick(r, al)))
+	}
+	for _, k := range append([][]byte{below}, tog...) {
 		v := genVal(r)
+		if !bytes.Equal(k, below) && r.Chance(1, 3) {
+			v = genValE(r, 1, 1)
+		}
 		b0.Puts = append(b0.Puts, [2][]byte{k, v})
 		m0.Put(k, v)
 	}
@@ -171,7 +206,7 @@ func genChain(r *vcommon.Rand) *chainScn {
 	list(-1, x)
 	n := r.Range(2, 5)
 	for i := 1; i < n; i++ {
-		b, m := derive(r, models[i-1], probe, al)
+		b, m := derive(r, models[i-1], probe, al, tog)
 		b.Parent = i - 1
 		s.Blocks = append(s.Blocks, b)
 		models = append(models, m)
@@ -185,7 +220,7 @@ func genChain(r *vcommon.Rand) *chainScn {
 		}
 		parent := a
 		for j := 0; j < length; j++ {
-			b, m := derive(r, models[parent], probe, al)
+			b, m := derive(r, models[parent], probe, al, tog)
 			b.Parent = parent
 			s.Blocks = append(s.Blocks, b)
 			models = append(models, m)
@@ -231,6 +266,24 @@ func fixedChains() []*chainScn {
 			},
 			Steps: []chainStep{{stImport, 0, 0}, {stList, -1, 0}, {stImport, 1, 0}, {stList, -1, 0}, {stList, -1, 1}, {stImport, 2, 0},
 				{stList, -1, 1}, {stList, -1, 0}, {stList, 0, 0}, {stList, 1, 1}, {stList, -1, 0}}},
+		// W3 (seeded defect missed while no state held an empty value): "present with an empty value" against "absent".
+		// ab (a branch node: abaa, abbb below it) and cd01 (a leaf) go non-empty -> empty -> non-empty over blocks 0..2;
+		// on the fork (blocks 3, 4, 5 from block 0) ab is DELETED where the main chain has it empty, then re-created
+		// empty, and abbb is emptied and deleted. Prefix 2 is the empty prefix (GetPairs takes the Entries path).
+		{Prefixes: [][]byte{b("ab"), b("cd"), {}},
+			Blocks: []blockSpec{
+				{Parent: -1, Puts: [][2][]byte{kv("ab"), kv("abaa"), kv("abbb"), kv("cd01"), kv("cd02"), {b("20"), {}}}},
+				{Parent: 0, Puts: [][2][]byte{{b("ab"), {}}, {b("cd01"), nil}}},
+				{Parent: 1, Puts: [][2][]byte{{b("ab"), {0x05}}, {b("cd01"), {0x06}}, {b("abaa"), {}}}},
+				{Parent: 0, Puts: [][2][]byte{{b("abbb"), {}}}, Dels: [][]byte{b("ab")}}, // fork of block 0
+				{Parent: 3, Puts: [][2][]byte{{b("ab"), {}}, {b("cd"), {}}}, Dels: [][]byte{b("abbb")}},
+				{Parent: 4, Puts: [][2][]byte{{b("abbb"), {0x09}}, {b("cd03"), {}}}, Dels: [][]byte{b("cd")}}, // overtakes
+			},
+			Steps: []chainStep{{stImport, 0, 0}, {stList, -1, 0}, {stList, -1, 2}, {stImport, 1, 0}, {stList, -1, 0}, {stList, -1, 1}, {stList, -1, 2},
+				{stList, 0, 0}, {stList, -1, 0}, {stImport, 2, 0}, {stList, -1, 0}, {stList, -1, 1}, {stList, 1, 0}, {stList, 1, 1}, {stList, -1, 2},
+				{stList, -1, 0}, {stImport, 3, 0}, {stList, -1, 0}, {stList, 3, 0}, {stList, 1, 0}, {stList, 3, 2}, {stImport, 4, 0}, {stList, 4, 0},
+				{stList, 4, 1}, {stList, -1, 0}, {stImport, 5, 0}, {stList, -1, 0}, {stList, -1, 1}, {stList, -1, 2}, {stList, 4, 1}, {stList, 1, 1},
+				{stList, 0, 2}, {stList, -1, 0}}},
 	}
 }
 
@@ -239,6 +292,51 @@ type rtBlock struct {
 	number uint
 	m      *vcommon.OrdMap
 	tr     *inmemory.InMemoryTrie
+	parent *rtBlock
+}
+
+// valueHistory classifies, for the keys of blk's state under the prefix (and those its parent block had there), how
+// the value moved between "absent", "empty" and "non-empty" along blk's ancestry.
+type valueHistory struct {
+	nonEmptyEmptyNonEmpty bool // grandparent non-empty, parent empty, here non-empty
+	emptied               bool // parent non-empty, here empty
+	filled                bool // parent empty, here non-empty
+	emptyThenDeleted      bool // parent held the key with an empty value, here it is absent
+	deletedThenEmpty      bool // grandparent held it, parent did not, here it exists with an empty value
+}
+
+func historyOf(blk *rtBlock, prefix []byte) (h valueHistory) {
+	p := blk.parent
+	if p == nil {
+		return h
+	}
+	for _, key := range blk.m.KeysWithPrefix(prefix) {
+		v, _ := blk.m.Get(key)
+		pv, inP := p.m.Get(key)
+		switch {
+		case inP && len(pv) > 0 && len(v) == 0:
+			h.emptied = true
+		case inP && len(pv) == 0 && len(v) > 0:
+			h.filled = true
+			if p.parent != nil {
+				if gv, ok := p.parent.m.Get(key); ok && len(gv) > 0 {
+					h.nonEmptyEmptyNonEmpty = true
+				}
+			}
+		case !inP && len(v) == 0 && p.parent != nil:
+			if _, ok := p.parent.m.Get(key); ok {
+				h.deletedThenEmpty = true
+			}
+		}
+	}
+	for _, key := range p.m.KeysWithPrefix(prefix) {
+		if pv, _ := p.m.Get(key); len(pv) == 0 {
+			if _, ok := blk.m.Get(key); !ok {
+				h.emptyThenDeleted = true
+			}
+		}
+	}
+	return h
 }
 
 // importBlock stores the trie and adds a block carrying it on top of parent.
@@ -316,6 +414,7 @@ func runChain(c *vcommon.Case, s *chainScn) {
 				ptr    = inmemory.NewEmptyTrie()
 				phash  = genesis
 				number = uint(1)
+				prt    *rtBlock
 			)
 			if s.Version == 1 {
 				ptr.SetVersion(trie.V1)
@@ -326,7 +425,7 @@ func runChain(c *vcommon.Case, s *chainScn) {
 					c.Inconclusive("scenario imports a block before its parent")
 					return
 				}
-				pm, ptr, phash, number = pb.m, pb.tr.Snapshot(), pb.hash, pb.number+1
+				pm, ptr, phash, number, prt = pb.m, pb.tr.Snapshot(), pb.hash, pb.number+1, pb
 			}
 			m := pm.Clone()
 			tr := ptr
@@ -344,7 +443,7 @@ func runChain(c *vcommon.Case, s *chainScn) {
 					return
 				}
 			}
-			if !m.EqualMap(tr.Entries()) { // trie Delete / snapshot defects are C02/C03's subject: build the state with Put only
+			if !holds(tr, m) { // trie Delete / snapshot defects are C02/C03's subject: build the state with Put only
 				c.Count("chain_state_rebuilt_because_trie_delete_or_snapshot_misbehaved", 1)
 				tr = inmemory.NewEmptyTrie()
 				if s.Version == 1 {
@@ -357,8 +456,8 @@ func runChain(c *vcommon.Case, s *chainScn) {
 						return
 					}
 				}
-				if !m.EqualMap(tr.Entries()) {
-					c.Inconclusive("the trie does not hold the entries that were put into it (see C02)")
+				if !holds(tr, m) {
+					c.Inconclusive("the trie does not hold the entries that were put into it, or a key put with an empty value does not exist in it (see C02)")
 					return
 				}
 			}
@@ -367,7 +466,7 @@ func runChain(c *vcommon.Case, s *chainScn) {
 				c.Inconclusive("cannot import block: " + err.Error())
 				return
 			}
-			blocks[st.Block] = &rtBlock{hash: h, number: number, m: m, tr: tr}
+			blocks[st.Block] = &rtBlock{hash: h, number: number, m: m, tr: tr, parent: prt}
 			byHash[h] = st.Block
 			nb := e.bs.BestBlockHash()
 			log = append(log, fmt.Sprintf("import block %d (number %d, parent %d) -> best is block %d", st.Block, number, spec.Parent, byHash[nb]))
@@ -422,6 +521,8 @@ func runChain(c *vcommon.Case, s *chainScn) {
 		if blk.number > maxListedNumber {
 			maxListedNumber = blk.number
 		}
+		ei := emptyIn(blk.m, prefix)
+		vh := historyOf(blk, prefix)
 		for _, path := range []string{"cached", "fromDB"} {
 			ll := last[path]
 			if head && ll.valid && ll.head && ll.prefix == st.Prefix && ll.at != best {
@@ -449,6 +550,19 @@ func runChain(c *vcommon.Case, s *chainScn) {
 				return
 			}
 			c.Count("chain_listings", 1)
+			for name, on := range map[string]bool{
+				"chain_listings_with_empty_valued_key":                                                ei.n > 0,
+				"chain_listings_with_empty_value_on_branch_node":                                      ei.onBranch > 0,
+				"chain_listings_with_key_nonempty_then_empty_then_nonempty_across_blocks":             vh.nonEmptyEmptyNonEmpty,
+				"chain_listings_with_key_emptied_since_parent_block":                                  vh.emptied,
+				"chain_listings_with_empty_valued_key_given_a_value_since_parent_block":               vh.filled,
+				"chain_listings_where_parent_block_held_key_with_empty_value_now_deleted":             vh.emptyThenDeleted,
+				"chain_listings_with_empty_valued_key_that_was_deleted_in_parent_block_and_recreated": vh.deletedThenEmpty,
+			} {
+				if on {
+					c.Count(name, 1)
+				}
+			}
 		}
 	}
 	nfork := 0
